@@ -17,9 +17,10 @@ type orC19 struct {
 	baseOracle
 	baseline   [2]int
 	haveBase   bool
-	wroteBy    map[string]bool   // a mysync process wrote relaxed settings to the host (not restored since)
-	restoredBy map[string]string // host -> process whose restore was the last (nobody relaxed it since: see relaxedBy)
-	relaxedBy  map[string]string // host -> process that relaxed it after the last restore
+	wroteBy    map[string]bool          // a mysync process wrote relaxed settings to the host (not restored since)
+	restoredBy map[string]string        // host -> process whose restore was the last (nobody relaxed it since: see relaxedBy)
+	relaxedBy  map[string]string        // host -> process that relaxed it after the last restore
+	relaxedAt  map[string]time.Duration // host -> when it was relaxed (since the last restore)
 	everReg    map[string]bool
 	regAtEnter map[string]map[string]string // per incarnation: registry (host -> status) when its pass began
 	frozenIt   map[*iterRec]bool
@@ -155,6 +156,12 @@ func (o *orC19) onSQL(e *SQLEvent) {
 					o.relaxedBy = map[string]string{}
 				}
 				o.relaxedBy[sv.Name] = e.Src
+				if o.relaxedAt == nil {
+					o.relaxedAt = map[string]time.Duration{}
+				}
+				if _, was := o.relaxedAt[sv.Name]; !was {
+					o.relaxedAt[sv.Name] = e.T
+				}
 				m.probe("c19_relaxed_settings_written")
 			}
 		} else {
@@ -162,6 +169,7 @@ func (o *orC19) onSQL(e *SQLEvent) {
 				m.probe("c19_settings_restored")
 			}
 			o.wroteBy[sv.Name] = false
+			delete(o.relaxedAt, sv.Name)
 			if e.toldOK() {
 				if o.restoredBy == nil {
 					o.restoredBy = map[string]string{}
@@ -325,7 +333,32 @@ func (o *orC19) onIterLeave(it *iterRec) {
 		}
 	}
 	if len(relaxedReg) > 1 && (!unreadable || byMysync) {
-		m.violate("C19", "more_than_one", "more-than-one-replica-left-relaxed-after-sync", fmt.Sprintf("after the sync of %s replicas %v all run with relaxed durability settings", it.inc, relaxedReg))
+		sig := "more-than-one-replica-left-relaxed-after-sync"
+		// the sync judges the replicas by the health records their own daemons publish: when the
+		// record it read of an already relaxed replica was written before that replica was relaxed,
+		// it took it for untouched and started another one
+		stale := 0
+		for _, h := range relaxedReg {
+			at, ok := o.relaxedAt[h]
+			if !ok {
+				continue
+			}
+			for _, r := range it.reads {
+				if r.path == "health/"+h && r.op == "get" && r.err == 0 {
+					var hr struct {
+						CheckAt time.Time `json:"check_at"`
+					}
+					if json.Unmarshal([]byte(r.data), &hr) == nil && !hr.CheckAt.IsZero() && hr.CheckAt.Sub(s.t0) < at {
+						stale++
+						break
+					}
+				}
+			}
+		}
+		if stale > 0 && stale >= len(relaxedReg)-1 {
+			sig = "second-replica-relaxed-on-a-health-record-older-than-the-first-one's-relaxation"
+		}
+		m.violate("C19", "more_than_one", sig, fmt.Sprintf("after the sync of %s replicas %v all run with relaxed durability settings", it.inc, relaxedReg))
 	}
 	if msv := s.mysql.servers[master]; msv != nil && msv.Up && o.wroteBy[master] && o.relaxed(msv) {
 		if _, r := reg[master]; !r {
